@@ -1,4 +1,5 @@
 import SleapVerif.Lemmas.DatasetsBuild
+import SleapVerif.Lemmas.DatasetsOrder
 /-!
 # C11 — datasets never alter or invent labels; same index gives the same sample; length =
 number of non-empty instances
@@ -322,6 +323,134 @@ example (x y u v : R) :
     simp only [List.mem_cons, List.not_mem_nil, or_false] at hn <;>
     rcases hn with rfl | rfl <;> simp_all [Pt.invisible]
 
+/-! ## 3b. Present stays present -/
+
+omit [Add R] [Sub R] [Div R] [LT R] [DecidableLT R] [OfNat R 0] [OfNat R 2] in
+/-- a labelled keypoint is, after `* eff_scale` and `apply_resizer`, a number at the scaled
+position -/
+theorem prepPts_value (eff s : R) (pts : List (Pt R)) (n : Nat) (x y : R)
+    (h : pts.getD n Pt.nan = (some x, some y)) :
+    (prepPts eff s pts).getD n Pt.nan =
+      if s = 1 then (some (x * eff), some (y * eff)) else (some (x * eff * s), some (y * eff * s)) := by
+  have hn : pts[n]? = some (some x, some y) := by
+    rw [List.getD_eq_getElem?_getD] at h
+    cases hc : pts[n]? with
+    | none => rw [hc] at h; simp [Pt.nan] at h
+    | some p => rw [hc] at h; simp at h; rw [h]
+  unfold prepPts
+  split <;> simp [List.getD_eq_getElem?_getD, hn, Pt.scale]
+
+/-- **present_stays_present** (bottom-up, single-instance, centroid classes): the cached — and by
+`getitem_eq_spec_build` every returned — `instances` tensor is the row-wise scaling of the rows
+`process_lf` selected (`padding_rows_missing`: the non-empty filtered label instances in order),
+and a labelled keypoint `(x, y)` of such a row sits there as a number at
+`(x·eff_scale[·scale], y·eff_scale[·scale])`. -/
+theorem present_stays_present (cfg : Cfg R) (cast : Nat → R) (mi : Nat) (f : Frame R) :
+    (specFrameCached cfg cast mi f).1.get Key.instances
+      = ((processInsts cfg.userOnly mi f).1.map (prepPts (cfg.eff cast f) cfg.scale)).flatten ∧
+    ∀ row ∈ (processInsts cfg.userOnly mi f).1, ∀ n x y, row.getD n Pt.nan = (some x, some y) →
+      (prepPts (cfg.eff cast f) cfg.scale row).getD n Pt.nan =
+        if cfg.scale = 1 then (some (x * cfg.eff cast f), some (y * cfg.eff cast f))
+        else (some (x * cfg.eff cast f * cfg.scale), some (y * cfg.eff cast f * cfg.scale)) := by
+  refine ⟨?_, fun row _ n x y h => prepPts_value _ _ row n x y h⟩
+  unfold specFrameCached
+  cases cfg.kind <;> simp [DictV.get, assocGet]
+
+/-- an instance with at least one fully labelled node has a centroid (anchor or bbox midpoint) -/
+theorem centroid_present (anchor : Option Nat) (pts : List (Pt R))
+    (h : ∃ p ∈ pts, p.full = true) : (centroidOf anchor pts).full = true := by
+  obtain ⟨p, hp, hfull⟩ := h
+  have hmid : (bboxMid pts).full = true := by
+    simp only [Pt.full, Bool.and_eq_true] at hfull ⊢
+    constructor
+    · show (midC (pts.map (·.1))).isSome = true
+      cases hm : midC (pts.map (·.1)) with
+      | some _ => rfl
+      | none =>
+        have := (centroid_none_iff _).mp hm p.1 (List.mem_map.mpr ⟨p, hp, rfl⟩)
+        rw [this] at hfull; simp at hfull
+    · show (midC (pts.map (·.2))).isSome = true
+      cases hm : midC (pts.map (·.2)) with
+      | some _ => rfl
+      | none =>
+        have := (centroid_none_iff _).mp hm p.2 (List.mem_map.mpr ⟨p, hp, rfl⟩)
+        rw [this] at hfull; simp at hfull
+  unfold centroidOf
+  cases anchor with
+  | none => exact hmid
+  | some a =>
+    simp only
+    split
+    · exact hmid
+    · rename_i hm
+      simp only [Pt.missing, Bool.or_eq_true, not_or, Bool.not_eq_true, Option.isNone_eq_false_iff] at hm
+      simp only [Pt.full, Bool.and_eq_true]
+      exact hm
+
+/-- **present_stays_present** (centered-instance class): the returned `instance` is the scaled
+label minus the two crop offsets `q1` (top-left of the `⌊crop·√2⌋` box around the centroid) and
+`q2` (top-left of the final `crop_hw` box); when the instance has a fully labelled node both
+offsets are numbers and every fully labelled node is a number in the sample. -/
+theorem present_stays_present_centered (cfg : Cfg R) (cast : Nat → R) (f : Frame R) (j : Nat)
+    (hk : cfg.kind = .centered) :
+    let lab := ((f.filtered cfg.userOnly).map (·.pts)).getD j []
+    let P := prepPts (cfg.eff cast f) cfg.scale lab
+    let c := centroidOf cfg.anchor P
+    let q1 := (centeredBbox cast c (cropExtra cfg.cropH) (cropExtra cfg.cropW)).getD 0 Pt.nan
+    let q2 := (centeredBbox cast (c.sub q1) cfg.cropH cfg.cropW).getD 0 Pt.nan
+    let out := (applySteps (cfg.steps cast) (specCenteredCached cfg cast f j).1).get Key.instance
+    out = (P.map (·.sub q1)).map (·.sub q2) ∧
+    ((∃ p ∈ lab, p.full = true) → q1.full = true ∧ q2.full = true ∧
+      ∀ n, (lab.getD n Pt.nan).full = true → (out.getD n Pt.nan).full = true) := by
+  intro lab P c q1 q2 out
+  have hq : out = (P.map (·.sub q1)).map (·.sub q2) := by
+    simp only [out, lab, P, c, q1, q2, Cfg.steps, hk, applySteps, centeredSteps, specCenteredCached,
+      List.foldl_cons, List.foldl_nil]
+    simp [assocSet, DictV.get, assocGet, List.getD_eq_getElem?_getD]
+  refine ⟨hq, fun hex => ?_⟩
+  have hfullP : ∀ n, (lab.getD n Pt.nan).full = true → (P.getD n Pt.nan).full = true := by
+    intro n hn
+    obtain ⟨x, y, hxy⟩ : ∃ x y, lab.getD n Pt.nan = (some x, some y) := by
+      rcases hl : lab.getD n Pt.nan with ⟨a, b⟩
+      rw [hl] at hn
+      cases a <;> cases b <;> simp [Pt.full] at hn
+      exact ⟨_, _, rfl⟩
+    have := prepPts_value (cfg.eff cast f) cfg.scale lab n x y hxy
+    simp only [P]
+    rw [this]
+    split <;> rfl
+  have hPex : ∃ p ∈ P, p.full = true := by
+    obtain ⟨p, hp, hf⟩ := hex
+    obtain ⟨n, hn, rfl⟩ := List.getElem_of_mem hp
+    have h1 : lab.getD n Pt.nan = lab[n] := by simp [List.getD_eq_getElem?_getD, hn]
+    have h2 := hfullP n (by rw [h1]; exact hf)
+    have hnP : n < P.length := by simp only [P]; rw [prepPts_length]; exact hn
+    refine ⟨P[n], List.getElem_mem hnP, ?_⟩
+    simpa [List.getD_eq_getElem?_getD, hnP] using h2
+  have hc : c.full = true := centroid_present cfg.anchor P hPex
+  have hsub : ∀ a b : Pt R, a.full = true → b.full = true → (a.sub b).full = true := by
+    intro a b ha hb
+    obtain ⟨a1, a2⟩ := a
+    obtain ⟨b1, b2⟩ := b
+    cases a1 <;> cases a2 <;> cases b1 <;> cases b2 <;> simp_all [Pt.full, Pt.sub, o2]
+  have hbb : ∀ (p : Pt R) (bh bw : Nat), p.full = true →
+      ((centeredBbox cast p bh bw).getD 0 Pt.nan).full = true := by
+    intro p bh bw hp
+    obtain ⟨p1, p2⟩ := p
+    cases p1 <;> cases p2 <;> simp_all [Pt.full, centeredBbox]
+  have hq1 : q1.full = true := hbb c _ _ hc
+  have hq2 : q2.full = true := hbb _ _ _ (hsub c q1 hc hq1)
+  refine ⟨hq1, hq2, fun n hn => ?_⟩
+  have hPn := hfullP n hn
+  rw [hq]
+  simp only [List.getD_eq_getElem?_getD, List.getElem?_map] at hPn ⊢
+  cases hc2 : P[n]? with
+  | none => rw [hc2] at hPn; simp [Pt.nan, Pt.full] at hPn
+  | some p =>
+    rw [hc2] at hPn
+    simp only [Option.map_some, Option.getD_some] at hPn ⊢
+    exact hsub _ q2 (hsub p q1 hPn hq1) hq2
+
 /-! ## 4. `__getitem__`: only allocation; deterministic -/
 
 omit [Add R] [Sub R] [Mul R] [Div R] [LT R] [DecidableLT R] [OfNat R 0] [OfNat R 1] [OfNat R 2] [DecidableEq R] in
@@ -462,5 +591,55 @@ omit [Add R] [Sub R] [Mul R] [Div R] [LT R] [DecidableLT R] [OfNat R 0] [OfNat R
 theorem filtered_idem (uo : Bool) (f : Frame R) :
     Frame.filtered uo { f with insts := f.filtered uo } = f.filtered uo :=
   SleapVerif.Datasets.filtered_idem uo f
+
+/-! ## 6. A labelled keypoint keeps its confidence-map peak whatever the other animals lack
+
+Over any linearly ordered `S` and any kernel (C01 owns the Gaussian: `0 < cm ≤ 1`, `= 1` iff the
+grid point is the keypoint).  The reduction is `maximum` over instances of maps in which a
+missing keypoint has **already** become `0` — so one animal's missing node `k` cannot erase
+another animal's node `k`. -/
+section Order
+variable {S : Type} [LinearOrder S] [OfNat S 0]
+
+/-- **present_multi_channel_nonzero**: if row `r < num_instances` has node `k` labelled at
+`(x, y)`, channel `k` of the multi-instance maps is at least that keypoint's own kernel value at
+every grid point — whatever the other rows contain (missing nodes included).  Hence it is `> 0`
+wherever the kernel is, and it equals the kernel's top value `t` (1 for the Gaussian) at a grid
+point where the kernel attains it (the keypoint itself when it lies on the grid). -/
+theorem present_multi_channel_nonzero (kernel : S → S → S → S → S) (rows : List (List (Pt S)))
+    (n k r : Nat) (row : List (Pt S)) (x y : S) (hr : r < n) (hrow : rows[r]? = some row)
+    (hk : row.getD k Pt.nan = (some x, some y)) (gx gy : S) :
+    kernel x y gx gy ≤ multiChannel kernel rows n k gx gy ∧
+    (0 < kernel x y gx gy → 0 < multiChannel kernel rows n k gx gy) ∧
+    (∀ t, 0 ≤ t → (∀ a b c d, kernel a b c d ≤ t) → kernel x y gx gy = t →
+      multiChannel kernel rows n k gx gy = t) := by
+  have hmem := mem_channelKps rows n k r row hr hrow
+  have hle : kernel x y gx gy ≤ multiChannel kernel rows n k gx gy := by
+    have := cmCell_le_multi kernel (channelKps rows n k) _ hmem gx gy
+    rw [hk] at this
+    exact this
+  refine ⟨hle, fun h => lt_of_lt_of_le h hle, fun t h0 hkt hat => ?_⟩
+  exact le_antisymm (multi_le kernel _ gx gy t h0 hkt) (hat ▸ hle)
+
+/-- the same for the centroid maps (one channel, one "node" per animal): a padded / missing
+centroid never hides a present one -/
+theorem present_centroid_channel_nonzero (kernel : S → S → S → S → S) (cens : List (Pt S))
+    (n r : Nat) (x y : S) (hr : r < n) (hc : cens[r]? = some (some x, some y)) (gx gy : S) :
+    kernel x y gx gy ≤ centroidChannel kernel cens n gx gy ∧
+    (0 < kernel x y gx gy → 0 < centroidChannel kernel cens n gx gy) := by
+  have hmem : ((some x, some y) : Pt S) ∈ cens.take n := by
+    have : (cens.take n)[r]? = some (some x, some y) := by rw [List.getElem?_take]; simp [hr, hc]
+    exact List.mem_of_getElem? this
+  have hle := cmCell_le_multi kernel (cens.take n) _ hmem gx gy
+  exact ⟨hle, fun h => lt_of_lt_of_le h hle⟩
+
+/-- The "vectorised" reduction of seed C11-r3m1 (`nan_to_num(amax(…))`: NaN propagates through the
+maximum, then becomes 0) is a different function: with rows `[missing]` and `[(x, y)]` it gives 0
+where the code as it is gives the keypoint's kernel value. -/
+example (kernel : S → S → S → S → S) (x y gx gy : S) (hpos : 0 < kernel x y gx gy) :
+    0 < multiChannel kernel [[(none, none)], [(some x, some y)]] 2 0 gx gy :=
+  (present_multi_channel_nonzero kernel _ 2 0 1 [(some x, some y)] x y (by decide) rfl rfl gx gy).2.1 hpos
+
+end Order
 
 end SleapVerif.C11
